@@ -128,7 +128,7 @@ class FnTranslator(ExprMixin, CallMixin, StmtMixin, EffectMixin):
         return self.counter
 
     def fresh(self, hint="t"):
-        return "{}{}".format(hint, self.fresh_id())
+        return "{}{}'".format(hint, self.fresh_id())      # the prime keeps it apart from every Python identifier
 
     # self(...) is self.__call__(...)
     def e_Call(self, e, env, k):
